@@ -39,7 +39,8 @@ RULE = ("cases = api {attr.s, define, frozen} x auto_detect {unset,T,F} x writte
         "the body x bases (attrs base none/vanilla/hooked/frozen, plain class in between defining names, Exception root). "
         "thorough: one exhaustive block per group (flag(s) x every subset of the group's names in the body x api x "
         "auto_detect x slots x frozen x base-defined subsets x attrs base) + random cross-group combinations; quick: a "
-        "seeded sample of every block + cross-group combinations. non-trivial = class was built and at least one watched "
+        "seeded sample of every block + cross-group combinations. Every case additionally carries a HISTORY: the same "
+        "decorator object is first applied to k in {0,1,2} other classes with different own-method subsets. non-trivial = class was built and at least one watched "
         "name is the user's own object or attrs-made; distinct = distinct JSON case")
 ASSUMPTIONS = [
     "CPython's class creation rule '__eq__ in the namespace and no __hash__ => __hash__ = None' is a 1-line model function, diff-tested here",
@@ -47,6 +48,8 @@ ASSUMPTIONS = [
     "a function counts as attrs-generated if its code object comes from '<attrs generated ...' or from a file of the attr package; "
     "`gen` additionally requires that it passes a behaviour probe (repr string, ==/!= of equal/unequal instances, ordering, hash "
     "of equal instances, __init__/__attrs_init__ store the arguments, getstate/setstate + pickle round trip, hook runs on assignment)",
+    "decorator-object history: the earlier classes are plain classes with one field and user objects bound to the listed "
+    "names; an earlier class the decorator rejects (error) stays in the history; the model is a function of the class alone",
     "one own field x (plus an inherited field y below an attrs base); the decision table does not depend on the fields except "
     "through 'has a validator'; converter (only next to a validator), default/factory, kw_only and __attrs_pre_init__/"
     "__attrs_post_init__ are harness-only variation (cfg) used by the __init__/__attrs_init__ probes",
@@ -138,7 +141,7 @@ def default_case():
         "fHash": "unset", "fUnsafeHash": "unset",
         "oStr": None, "oMatchArgs": None, "oSlots": None, "oFrozen": None, "oCacheHash": None, "oAutoExc": None,
         "onSetattr": "unset", "fieldValidator": False, "body": [], "attrsBase": "none", "plainMid": False,
-        "baseDefines": [], "excBase": False, "py310": sys.version_info >= (3, 10),
+        "baseDefines": [], "excBase": False, "py310": sys.version_info >= (3, 10), "history": [],
         "cfg": {"base_slots": False, "cell": False},
     }
 
@@ -320,7 +323,22 @@ def build(case):
         cls = types.new_class("C", (base,), {}, lambda d: d.update(ns))
     deco = {"attrS": attr.s, "define": attrs.define, "frozen": attrs.frozen}[case["api"]]
     try:
-        C = deco(**_kwargs(case))(cls)
+        # ONE decorator object: first applied to the classes of the history (bodies binding other names), then to
+        # the class under observation -- whatever it decided for them must not matter
+        deco_obj = deco(**_kwargs(case))
+        for i, hbody in enumerate(case.get("history") or []):
+            pns = {n: _user_obj(n, "PRIOR") for n in hbody}
+            pns["__module__"] = SYNTH_MOD
+            pns["x"] = attr.ib(**fkw)
+            if case["api"] != "attrS":
+                pns["__annotations__"] = {"x": int}
+            pbase = base if cfg.get("hist_base", "same") == "same" else root
+            prior = types.new_class(f"H{i}", (pbase,), {}, lambda d, pns=pns: d.update(pns))
+            try:
+                deco_obj(prior)
+            except Exception:  # noqa: BLE001,S110  -- a rejected earlier class is part of the history too
+                pass
+        C = deco_obj(cls)
     except Exception as e:  # noqa: BLE001
         return None, common.exc_kind(e), user, fields
     return C, None, user, fields
@@ -458,7 +476,7 @@ def _probe_init(name, fn, C, fields, case, cache_hash):
     ic = _init_cfg(case)
     twin = None
     if name == "__attrs_init__":
-        T, terr, _, tfields = build(dict(case, fInit="t"))
+        T, terr, _, tfields = build(dict(case, fInit="t", history=[]))
         if terr is None and tfields == fields and _is_attrs_function(T.__dict__.get("__init__")):
             twin = T
     for args, kwargs, x_raw, from_default in _call_forms(fields, case):
@@ -553,7 +571,7 @@ def dist(case, obs):
     return {
         "api": case["api"], "auto_detect": case["oAutoDetect"], "slots": case["oSlots"], "frozen": case["oFrozen"],
         "attrsBase": case["attrsBase"], "plainMid": case["plainMid"], "n_body": len(case["body"]),
-        "n_baseDefines": len(case["baseDefines"]), "err": err, "excBase": case["excBase"],
+        "n_baseDefines": len(case["baseDefines"]), "history_len": len(case.get("history") or []), "err": err, "excBase": case["excBase"],
         "block": (case.get("cfg") or {}).get("block"),
         "user_kept": sum(1 for s in sl.values() if s == "user"),
         "generated": sum(1 for s in sl.values() if s == "gen"),
@@ -571,7 +589,37 @@ def _subsets(names):
             yield list(s)
 
 
+HIST_NAMES = [n for n in FIXED_WATCH if n != "__attrs_own_setattr__"]
+
+
+def _opposite(body, with_setattr):
+    """every group name the class under observation does NOT bind (so each group's own-ness differs)"""
+    return [n for n in HIST_NAMES if n not in body and (with_setattr or n not in ("__setattr__", "__delattr__"))]
+
+
+def _history(body, h):
+    """0, 1 or 2 earlier classes for the same decorator object, a deterministic function of the case"""
+    k = h % 3
+    opp = _opposite(body, (h >> 11) % 4 == 0)
+    other = [n for j, n in enumerate(HIST_NAMES) if (h >> (12 + j % 16)) % 2 and n not in ("__setattr__",)]
+    if k == 0:
+        return []
+    if k == 1:
+        return [opp]
+    return [opp, other] if (h >> 10) % 2 else [other, opp]
+
+
+_LAZY = [False]
+
+
 def _mk(block, **kw):
+    """a case of `block`; while sampling (quick tier) only the recipe, materialised for the sampled ones"""
+    if _LAZY[0]:
+        return (block, kw)
+    return _mk_real(block, **kw)
+
+
+def _mk_real(block, **kw):
     c = default_case()
     cfg = dict(c["cfg"], block=block)
     explicit = set(kw.get("cfg", {}))
@@ -584,6 +632,9 @@ def _mk(block, **kw):
                      ("kw_only", (h >> 9) % 4 == 1)):
         if key not in explicit:
             cfg[key] = val
+    if "history" not in kw:
+        c["history"] = _history(c["body"], h >> 3)
+    cfg.setdefault("hist_base", "same" if (h >> 13) % 3 else "root")
     c["cfg"] = cfg
     if c["baseDefines"]:
         c["plainMid"] = True
@@ -753,7 +804,11 @@ def random_case(rng):
             plainMid=rng.random() < 0.3, baseDefines=bd, excBase=rng.random() < 0.15,
             cfg={"base_slots": rng.random() < 0.5, "cell": rng.random() < 0.4, "converter": rng.random() < 0.5,
                  "pre": rng.random() < 0.25, "post": rng.random() < 0.25,
-                 "dflt": rng.choice(["none", "none", "value", "factory"]), "kw_only": rng.random() < 0.2})
+                 "dflt": rng.choice(["none", "none", "value", "factory"]), "kw_only": rng.random() < 0.2,
+                 "hist_base": rng.choice(["same", "same", "root"])},
+            history=[rng.choice([_opposite(body, False), _opposite(body, True),
+                                 rng.sample(HIST_NAMES, rng.choice([0, 1, 3, 6]))])
+                     for _ in range(rng.choice([0, 0, 1, 1, 2]))])
     return c
 
 
@@ -761,17 +816,22 @@ def gen_cases(tier, rng):
     if tier == "thorough":
         for blk in BLOCKS:
             yield from blk()
-        for _ in range(200000):
+        for _ in range(120000):
             yield random_case(rng)
         return
     # quick: a seeded sample of every block, then cross-group combinations
-    per_block = 1000
+    per_block = 650
     for blk in BLOCKS:
-        cases = list(blk())
-        if len(cases) > per_block:
-            cases = rng.sample(cases, per_block)
-        yield from cases
-    for _ in range(9000):
+        _LAZY[0] = True
+        try:
+            recipes = list(blk())
+        finally:
+            _LAZY[0] = False
+        if len(recipes) > per_block:
+            recipes = rng.sample(recipes, per_block)
+        for block, kw in recipes:
+            yield _mk_real(block, **kw)
+    for _ in range(5000):
         yield random_case(rng)
 
 
@@ -783,8 +843,14 @@ def shrink(case):
     bd = case["baseDefines"]
     for i in range(len(bd)):
         yield dict(case, baseDefines=bd[:i] + bd[i + 1:])
+    hist = case.get("history") or []
+    for i in range(len(hist)):
+        yield dict(case, history=hist[:i] + hist[i + 1:])
+    for i, hb in enumerate(hist):
+        for j in range(len(hb)):
+            yield dict(case, history=hist[:i] + [hb[:j] + hb[j + 1:]] + hist[i + 1:])
     for k, v in base.items():
-        if k in ("body", "baseDefines", "cfg", "py310"):
+        if k in ("body", "baseDefines", "cfg", "py310", "history"):
             continue
         if case[k] != v:
             c = dict(case, **{k: v})
@@ -839,8 +905,12 @@ LEVEL_TEXT = (
     "model -- differential correspondence comparing, for every watched name, what C.__dict__ holds (identity with the "
     "user's object -- functions, functions with a __class__ cell, classmethod/property/staticmethod objects, a tuple --, "
     "attrs-generated and passing a behaviour probe, None, object.__setattr__, frozen setattr/delattr, generated "
-    "__match_args__) and the kind of definition error; thorough tier: exhaustive per-group blocks (about 2e5 cases) + 2e5 "
-    "random cross-group cases; quick: 1000 sampled cases per block + 9000 random. Behaviour of generated methods is probed "
+    "__match_args__) and the kind of definition error; thorough tier: exhaustive per-group blocks (about 2.5e5 cases) + 1.2e5 "
+    "random cross-group cases; quick: 650 sampled cases per block + 5000 random. HISTORY: every class is decorated by a "
+    "decorator OBJECT (attr.s(...), define(...), frozen(...) called once) that was first applied to 0, 1 or 2 other classes "
+    "whose bodies bind other names (the complement of the observed class's group names, and a pseudo-random subset; below "
+    "the same bases or below object); the model never reads the history (C14_history_irrelevant), so a decision that "
+    "leaks from one decorated class into the next is a difference between code and model. Behaviour of generated methods is probed "
     "(repr string, ==/!=, ordering, hash equality, __init__ against reference semantics, __attrs_init__ against the generated "
     "__init__ of a twin class: outcome, callback trace, field values, exception args, hash cache, "
     "getstate/setstate + pickle round trip, hook runs on assignment), not modelled. No known deviation is "
